@@ -4,7 +4,8 @@ C03 — missing data stays missing and never leaks into valid results.
 `payload_irrelevant` : the numbers hidden beneath missing cells never influence the outcome of any data command —
                        not the error raised, not the element type, shape or mask of the result, not any visible value
                        (whole-array statistics included).  Non-interference, for all 31 commands, all inputs.
-`mask_superset`      : a result cell is missing whenever the corresponding cell of any input is missing.
+`mask_superset`      : a result cell is missing whenever the corresponding cell of any input is missing (all 31 commands).
+`single_input_mask_exact` : single-input commands add no missing cell, unless the mapping is undefined for the whole array.
 -/
 import MPilot.Lemmas.ArrR
 import MPilot.Lemmas.MaskSup
@@ -391,5 +392,92 @@ theorem mask_superset (sqrt : Rat → Rat) (c : DataCmd) (xs : List Arr) (hw : S
       cases xs with
       | nil => cases ha
       | cons x rest => exact stackMap_sup _ x rest (fun b hb => hsz b hb x (List.mem_cons_self ..)) a ha
+
+/-! ### no extra missing cells, except where the mapping is undefined -/
+
+theorem keepMask_exact (a : Arr) (f : Cell → Rat) : LEq a.cells (a.cells.map fun c => ⟨f c, c.mask⟩) :=
+  map_leq (f := fun c => ⟨f c, c.mask⟩) (fun _ => rfl) _
+
+theorem clamp_exact {a : Arr} {r : Except Err Arr} {out : Arr} (hr : ∀ o, r = .ok o → ExactOrAll a o) (h : fuzzyClamp r = .ok out) :
+    ExactOrAll a out := by
+  obtain ⟨o, ho, rfl⟩ := fuzzyClamp_ok h
+  exact (hr o ho).mapCells (insure_mask _ _)
+
+theorem zScoreBody_exact {sqrt : Rat → Rat} {a out : Arr} {tt ft s e : Rat} (h : zScoreBody sqrt a tt ft s e = .ok out) : ExactOrAll a out := by
+  unfold zScoreBody at h
+  split at h
+  · injection h with h; subst h; exact (linMap_exact _ _ _ _ a).mapCells (insure_mask _ _)
+  · injection h with h; subst h; exact Or.inr (map_lall (f := fun _ => ⟨fillValue, true⟩) (fun _ => rfl) _)
+
+theorem catBody_exact {a out : Arr} {raw normal : List Num} {d : Num} (h : catBody a raw normal d = .ok out) : ExactOrAll a out := by
+  unfold catBody at h
+  split at h
+  · cases h
+  · split at h
+    · cases h
+    · injection h with h; subst h; exact Or.inl (keepMask_exact a _)
+
+theorem curveBody_exact {ref : LineRef} {a out : Arr} {raw normal : List Rat} (h : curveBody ref a raw normal = .ok out) : ExactOrAll a out := by
+  unfold curveBody at h
+  repeat' (first | split at h | (dsimp only at h))
+  all_goals first | (injection h with h; subst h; exact Or.inl (keepMask_exact a _)) | cases h
+
+theorem curveZBody_exact {sqrt : Rat → Rat} {a out : Arr} {z normal : List Num} (h : curveZBody sqrt a z normal = .ok out) : ExactOrAll a out := by
+  unfold curveZBody at h
+  repeat' (first | split at h | (dsimp only at h))
+  all_goals first | (injection h with h; subst h; exact Or.inl (keepMask_exact a _)) | cases h
+
+theorem meanToMidBody_exact {a out : Arr} {iz : Bool} {normal : List Num} (h : meanToMidBody a iz normal = .ok out) : ExactOrAll a out := by
+  unfold meanToMidBody at h
+  repeat' (first | split at h | (dsimp only at h))
+  all_goals first | exact curveBody_exact h | cases h
+
+theorem go_exact {a out : Arr} {tt ft : Option Num} {hl : Bool} (h : exec.go a tt ft hl = .ok out) : ExactOrAll a out := by
+  unfold exec.go at h
+  repeat' (first | split at h | (dsimp only at h))
+  all_goals first
+    | (obtain ⟨o, ho, rfl⟩ := fuzzyClamp_ok h; injection ho with ho; subst ho; exact (linMap_exact _ _ _ _ a).mapCells (insure_mask _ _))
+    | cases h
+
+/-- the 16 commands that take one input field -/
+def isUnary : DataCmd → Bool
+  | .copy | .normalize .. | .normalizeZScore .. | .normalizeCat .. | .normalizeCurve .. | .normalizeMeanToMid .. | .normalizeCurveZScore ..
+  | .cvtToFuzzy .. | .cvtToFuzzyZScore .. | .cvtToFuzzyCat .. | .cvtToFuzzyCurve .. | .cvtToFuzzyMeanToMid .. | .cvtToFuzzyCurveZScore ..
+  | .cvtToBinary .. | .fuzzyNot | .cvtFromFuzzy .. => true
+  | _ => false
+
+/-- **C03 (no leak in the other direction).**  A single-input conversion or normalisation marks a cell missing only where its input is
+missing - unless the mapping is undefined for the array as a whole (no spread of values to normalise, zero standard deviation,
+coinciding thresholds), in which case every cell is missing.  All 16 single-input commands; for the n-ary ones the cell theorems of C06/C07
+(`sum_cell`, `or_cell`, `mean_cell`, `weightedSum_cell`, ...) give the mask exactly as the union of the input masks. -/
+theorem single_input_mask_exact (sqrt : Rat → Rat) (c : DataCmd) (hc : isUnary c = true) (a out : Arr) (h : exec sqrt c [a] = .ok out) : ExactOrAll a out := by
+  cases c <;> simp only [exec] at h <;> (try (simp [isUnary] at hc; done))
+  case copy => injection h with h; subst h; exact Or.inl (List.forall₂_same.mpr fun _ _ => rfl)
+  case normalize s e =>
+    split at h
+    · injection h with h; subst h; exact linSteps_exact _ _ _ _ _
+    · injection h with h; subst h; exact Or.inr (map_lall (f := fun c => ⟨c.val, true⟩) (fun _ => rfl) _)
+  case normalizeZScore tt ft s e => exact zScoreBody_exact h
+  case normalizeCat raw nv d => exact catBody_exact h
+  case normalizeCurve raw nv => exact curveBody_exact h
+  case normalizeMeanToMid iz nv => exact meanToMidBody_exact h
+  case normalizeCurveZScore z nv => exact curveZBody_exact h
+  case cvtToFuzzy tt ft dir =>
+    repeat' (first | split at h | (dsimp only at h))
+    all_goals first | exact go_exact h | cases h
+  case cvtToFuzzyZScore tt ft => exact clamp_exact (fun o ho => zScoreBody_exact ho) h
+  case cvtToFuzzyCat raw fz d => exact clamp_exact (fun o ho => catBody_exact ho) h
+  case cvtToFuzzyCurve raw fz => exact clamp_exact (fun o ho => curveBody_exact ho) h
+  case cvtToFuzzyMeanToMid iz fz => exact clamp_exact (fun o ho => meanToMidBody_exact ho) h
+  case cvtToFuzzyCurveZScore z fz => exact clamp_exact (fun o ho => curveZBody_exact ho) h
+  case cvtToBinary th dir =>
+    split at h
+    · cases h
+    · exact clamp_exact (fun o ho => by injection ho with ho; subst ho; exact Or.inl (keepMask_exact _ _)) h
+  case fuzzyNot => exact clamp_exact (fun o ho => by injection ho with ho; subst ho; exact Or.inl (map_leq (sc_mask _) _)) h
+  case cvtFromFuzzy tt ft =>
+    split at h
+    · cases h
+    · injection h with h; subst h; exact linMap_exact _ _ _ _ _
 
 end MPilot.C03
